@@ -43,6 +43,14 @@ func genC19(seed uint64, r *rng.Rand) *Plan {
 	p.Tasks = append(p.Tasks, Task{Ops: []Op{{Kind: "sleep", MS: g.R.Range(1, 400)},
 		(&Gen{R: g.R, nonce: 900000}).SingleOp(p.Layout.Tables[0].Name, []byte("late"), []string{"get", "put"}),
 		(&Gen{R: g.R, nonce: 900010}).batchOf(&p.Layout.Tables[0], 3, []string{"get", "put"})}})
+	if g.R.Chance(0.3) {
+		// the regions of a table are looked up (a loop of its own) around Close
+		lt := &p.Tasks[len(p.Tasks)-1]
+		lt.Ops = append(lt.Ops, Op{Kind: "cache", Table: p.Layout.Tables[0].Name})
+		if g.R.Chance(0.5) {
+			lt.Ops[0], lt.Ops[len(lt.Ops)-1] = lt.Ops[len(lt.Ops)-1], Op{Kind: "sleep", MS: g.R.Range(1, 400)}
+		}
+	}
 	p.Sched.MaxFake = 20 * time.Minute
 	if g.R.Chance(0.25) {
 		// a scan with scanner renewal that is between two fetches (or has been
@@ -89,7 +97,7 @@ func (w *World) checkC19(reason string) []Violation {
 			}
 			where := fmt.Sprintf("task %d op %d (%s) started at step %d, after Close returned at step %d", r.Task, r.Idx, r.Op.Kind, r.Invoke, w.CloseReturnStep)
 			switch r.Op.Kind {
-			case "get", "put", "del", "app", "inc", "cas":
+			case "get", "put", "del", "app", "inc", "cas", "cache":
 				if !closedErr(&r.Slot) {
 					vs = append(vs, w.viol("C19", "call-after-close", "%s: returned %q instead of a client-closed error", where, firstLine(r.Slot.ErrStr)))
 				}
